@@ -19,7 +19,8 @@ PROPS_FILE = 'ScnVerif/Props/C09.lean'
 TRANSLATORS = [tr_kernels.translate]
 RULE = (
     '(arg) every public entry point in the call table (conversion kernels by parameter name, convert() on dense and '
-    'binned data, chopper, tof.chopper_cascade, peaks, absorption, io xye/cif/sqw builder, atoms/material) is called with every '
+    'binned data, chopper, tof.chopper_cascade, peaks, absorption, io xye/cif and the whole SQW builder surface (BytesIO / Path / '
+    'str targets, model objects with and without preset file names, objects reused for two builders), atoms/material) is called with every '
     'argument in each unit/dtype configuration of its parameter (configurations whose unit and dtype equal the '
     'internal target come first, so copy=False conversions alias; float64 and float32; scalar and array shapes) and '
     'seeded mixed configurations; all arguments are deep-snapshotted (values, variances, units, dtypes, dims, masks, '
@@ -599,40 +600,99 @@ def io_calls(ctx, deep):
     yield from sqw_calls(ctx, deep)
 
 
-def sqw_calls(ctx, deep):
+def sqw_objects(preset_names=False, dtype='float64'):
+    """fresh model objects of the SQW builder surface"""
     import dataclasses as dc
-    from io import BytesIO
 
     import numpy as np
     import scipp as sc
+    from scippneutron.io import sqw as S
+
+    A = sc.Unit('angstrom')
+    offset = [0.5 / A, 1.0 / A, 0.0 / A, 0.0 * sc.Unit('meV')]
+    metadata = S.SqwDndMetadata(
+        axes=S.SqwLineAxes(
+            title='test axes', label=['x', 'y', 'z', 'dE'],
+            img_scales=[1.0 / A, 1.0 / A, 0.5 / A, 2.0 * sc.Unit('meV')],
+            img_range=[sc.array(dims=['range'], values=[-0.03, 0.54], unit='1/angstrom'), sc.array(dims=['range'], values=[-0.5, 6.7], unit='1/angstrom'),
+                       sc.array(dims=['range'], values=[-56.0, -24.0], unit='1/angstrom'), sc.array(dims=['range'], values=[6.0, 9.1], unit='meV')],
+            n_bins_all_dims=sc.array(dims=['axis'], values=[40, 50, 40, 40], unit=None),
+            single_bin_defines_iax=sc.array(dims=['axis'], values=[False, True, True, True]),
+            dax=sc.array(dims=['axis'], values=[2, 1, 0, 3], unit=None), offset=list(offset), changes_aspect_ratio=True,
+            **({'filename': 'preset.sqw', 'filepath': '/some/old/dir'} if preset_names else {})),
+        proj=S.SqwLineProj(
+            lattice_spacing=sc.vector([2.1, 2.1, 2.5], unit='angstrom'), lattice_angle=sc.vector([90.0, 45.0, 90.0], unit='deg'),
+            offset=list(offset), title='my projection', label=['x', 'y', 'z', 'dE'],
+            u=sc.vector([0.0, 1.0, 0.0], unit='1/angstrom'), v=sc.vector([1.0, 0.0, 0.0], unit='1/angstrom'), w=None, non_orthogonal=False, type='aaa'))
+    instrument = S.SqwIXNullInstrument(name='inst', source=S.SqwIXSource(name='src', target_name='tgt', frequency=sc.scalar(14.0, unit='Hz')))
+    sample = S.SqwIXSample(name='smp', lattice_spacing=sc.vector([2.1, 2.1, 2.5], unit='angstrom'), lattice_angle=sc.vector([90.0, 45.0, 90.0], unit='deg'))
+    tmpl = S.SqwIXExperiment(
+        run_id=-1, efix=sc.scalar(1.2, unit='meV'), emode=S.EnergyMode.direct,
+        en=sc.array(dims=['energy_transfer'], values=[3.0], unit='meV'), psi=sc.scalar(1.2, unit='rad'),
+        u=sc.vector([0.0, 1.0, 0.0]), v=sc.vector([1.0, 1.0, 0.0]), omega=sc.scalar(1.4, unit='rad'),
+        dpsi=sc.scalar(0.0, unit='rad'), gl=sc.scalar(3, unit='rad'), gs=sc.scalar(-0.5, unit='rad'),
+        filename='run.nxspe' if preset_names else '', filepath='/data')
+    experiments = [dc.replace(tmpl, run_id=1, filename='f2'), dc.replace(tmpl, run_id=0, filename='f1')]
+    n = 7
+    pix = sc.DataArray(
+        sc.array(dims=['obs'], values=np.arange(n, dtype=dtype), variances=np.ones(n, dtype=dtype), unit='count'),
+        coords={'idet': sc.arange('obs', 0, n, unit=None).astype(int) // sc.index(3), 'irun': sc.arange('obs', 0, n, unit=None).astype(int) // sc.index(4),
+                'ien': sc.arange('obs', 0, n, unit=None).astype(int) // sc.index(10),
+                'u1': sc.arange('obs', 0.0, n + 0.0, unit='1/angstrom').astype(dtype), 'u2': sc.arange('obs', 1.0, n + 1.0, unit='1/angstrom').astype(dtype),
+                'u3': sc.arange('obs', 2.0, n + 2.0, unit='1/angstrom').astype(dtype), 'u4': (sc.arange('obs', n, unit='meV') * 2.0).astype(dtype)})
+    return {'metadata': metadata, 'instrument': instrument, 'sample': sample, 'experiments': experiments, 'pixels': pix}
+
+
+def sqw_calls(ctx, deep):
+    """the whole SQW builder surface; every model object handed to the builder is an argument of the call"""
+    import tempfile
+    from io import BytesIO
+    from pathlib import Path
 
     try:
-        from scippneutron.io.sqw import EnergyMode, Sqw, SqwIXExperiment
+        from scippneutron.io.sqw import Sqw
     except ImportError as e:
         ctx.note(f'sqw builder not importable: {e}')
         return
-    tmpl = SqwIXExperiment(
-        run_id=-1, efix=sc.scalar(1.2, unit='meV'), emode=EnergyMode.direct,
-        en=sc.array(dims=['energy_transfer'], values=[3.0], unit='meV'), psi=sc.scalar(1.2, unit='rad'),
-        u=sc.vector([0.0, 1.0, 0.0]), v=sc.vector([1.0, 1.0, 0.0]), omega=sc.scalar(1.4, unit='rad'),
-        dpsi=sc.scalar(0.0, unit='rad'), gl=sc.scalar(3, unit='rad'), gs=sc.scalar(-0.5, unit='rad'), filename='', filepath='/data')
-    n = 7
-    for dtype in ('float32', 'float64'):
-        experiments = [dc.replace(tmpl, run_id=1, filename='f2'), dc.replace(tmpl, run_id=0, filename='f1')]
-        pix = sc.DataArray(
-            sc.array(dims=['obs'], values=np.arange(n, dtype=dtype), variances=np.ones(n, dtype=dtype), unit='count'),
-            coords={'idet': sc.arange('obs', 0, n, unit=None).astype(int) // sc.index(3),
-                    'irun': sc.arange('obs', 0, n, unit=None).astype(int) // sc.index(4),
-                    'ien': sc.arange('obs', 0, n, unit=None).astype(int) // sc.index(10),
-                    'u1': sc.arange('obs', 0.0, n + 0.0, unit='1/angstrom').astype(dtype), 'u2': sc.arange('obs', 1.0, n + 1.0, unit='1/angstrom').astype(dtype),
-                    'u3': sc.arange('obs', 2.0, n + 2.0, unit='1/angstrom').astype(dtype), 'u4': (sc.arange('obs', n, unit='meV') * 2.0).astype(dtype)})
 
-        def build(p, ex, chunk):
-            b = Sqw.build(BytesIO()).add_pixel_data(p, experiments=ex)
-            b.create(chunk_size=chunk)
+    def full(target, o, chunk, steps, n_builders=1):
+        """build and create `n_builders` files from the same objects"""
+        with tempfile.TemporaryDirectory() as d:
+            for i in range(n_builders):
+                where = BytesIO() if target == 'BytesIO' else (Path(d) / f'out{i}.sqw' if target == 'Path' else str(Path(d) / f'out{i}.sqw'))
+                b = Sqw.build(where, title=f'title {i}')
+                if 'instrument' in steps:
+                    b = b.add_default_instrument(o['instrument'])
+                if 'sample' in steps:
+                    b = b.add_default_sample(o['sample'])
+                if 'pixels' in steps:
+                    b = b.add_pixel_data(o['pixels'], experiments=o['experiments'])
+                if 'dnd' in steps:
+                    b = b.add_empty_dnd_data(o['metadata'])
+                if 'detpar' in steps:
+                    b = b.add_empty_detector_params()
+                b.create(chunk_size=chunk)
 
-        for chunk in (8192, 2):
-            yield 'SqwBuilder.add_pixel_data+create', f'dtype={dtype},chunk={chunk}', build, (pix, experiments, chunk), {}, {}
+    surfaces = [('dnd',), ('pixels',), ('instrument', 'sample', 'pixels'), ('instrument', 'sample', 'pixels', 'dnd'),
+                ('instrument', 'sample', 'pixels', 'dnd', 'detpar'), ('dnd', 'pixels')]
+    for target in ('BytesIO', 'Path', 'str'):
+        for preset in (False, True):
+            for steps in surfaces:
+                for nb in (1, 2):
+                    if nb == 2 and steps not in (('dnd',), ('instrument', 'sample', 'pixels', 'dnd')):
+                        continue
+                    for chunk in ((8192, 2) if steps == ('pixels',) else (8192,)):
+                        o = sqw_objects(preset_names=preset, dtype='float32' if chunk == 2 else 'float64')
+                        cfg = f'target={target},preset-names={preset},steps={"+".join(steps)},builders={nb},chunk={chunk}'
+                        yield 'SqwBuilder.create', cfg, full, (target, o, chunk, steps, nb), {}, {}
+    # the adders alone (no create)
+    for preset in (False, True):
+        o = sqw_objects(preset_names=preset)
+        yield 'SqwBuilder.add_empty_dnd_data', f'preset-names={preset}', (lambda m: Sqw.build(BytesIO()).add_empty_dnd_data(m)), (o['metadata'],), {}, {}
+        yield 'SqwBuilder.add_pixel_data', f'preset-names={preset}', (lambda p_, e: Sqw.build(BytesIO()).add_pixel_data(p_, experiments=e)), (o['pixels'], o['experiments']), {}, {}
+        yield 'SqwBuilder.add_default_instrument', f'preset-names={preset}', (lambda i_: Sqw.build(BytesIO()).add_default_instrument(i_)), (o['instrument'],), {}, {}
+        yield 'SqwBuilder.add_default_sample', f'preset-names={preset}', (lambda s_: Sqw.build(BytesIO()).add_default_sample(s_)), (o['sample'],), {}, {}
+        yield 'SqwDndMetadata.prepare_for_serialization', f'preset-names={preset}', (lambda m: m.prepare_for_serialization('new.sqw', '/new/dir')), (o['metadata'],), {}, {}
 
 
 def _unused_io_tail():
